@@ -1,1 +1,115 @@
-//! Shared helpers for the conformance harness (projection functions, codecs).
+//! Shared helpers for the conformance harness: limb codecs, TLC case extraction,
+//! report lines.  Deliberately logic-free (see DESIGN.md section 8, trusted base).
+use std::io::BufRead;
+
+/// u64 -> JSON array of `n` little-endian 16-bit limbs (TLC ints are 32-bit).
+pub fn limbs(v: u64, n: usize) -> String {
+    let mut s = String::from("[");
+    for i in 0..n {
+        if i > 0 {
+            s.push(',');
+        }
+        s.push_str(&((v >> (16 * i)) & 0xffff).to_string());
+    }
+    s.push(']');
+    s
+}
+
+pub fn limbs_json(v: u64, n: usize) -> serde_json::Value {
+    serde_json::Value::Array((0..n).map(|i| serde_json::Value::from((v >> (16 * i)) & 0xffff)).collect())
+}
+
+/// JSON array of limbs -> u64.  An empty array means "no value".
+pub fn from_limbs(v: &serde_json::Value) -> Option<u64> {
+    let a = v.as_array()?;
+    if a.is_empty() {
+        return None;
+    }
+    let mut r = 0u64;
+    for (i, x) in a.iter().enumerate() {
+        r |= x.as_u64()? << (16 * i);
+    }
+    Some(r)
+}
+
+/// Iterate over the JSON payloads of TLC `PrintT(<<"TAG", ToJson(..)>>)` lines in a file.
+pub fn for_each_case<F: FnMut(serde_json::Value)>(path: &str, tag: &str, mut f: F) {
+    let pre = format!("<<\"{}\", \"", tag);
+    let file = std::fs::File::open(path).expect("open TLC output");
+    let rd = std::io::BufReader::with_capacity(1 << 20, file);
+    for line in rd.lines() {
+        let line = match line {
+            Ok(l) => l,
+            Err(_) => continue,
+        };
+        if let Some(rest) = line.strip_prefix(&pre) {
+            let rest = rest.trim_end();
+            let body = rest.strip_suffix("\">>").unwrap_or(rest);
+            let un = body.replace("\\\"", "\"").replace("\\\\", "\\");
+            match serde_json::from_str::<serde_json::Value>(&un) {
+                Ok(v) => f(v),
+                Err(e) => panic!("bad case line: {} ({})", un, e),
+            }
+        }
+    }
+}
+
+/// Collector for the report protocol understood by checklib/core.py.
+#[derive(Default)]
+pub struct Report {
+    pub evaluations: u64,
+    pub mismatches: u64,
+    pub drift: u64,
+    pub classes: std::collections::BTreeMap<String, u64>,
+    pub samples: Vec<serde_json::Value>,
+    pub distinct: std::collections::HashSet<u64>,
+}
+
+impl Report {
+    pub fn new() -> Self {
+        Self::default()
+    }
+    pub fn class(&mut self, c: &str) {
+        *self.classes.entry(c.to_string()).or_insert(0) += 1;
+    }
+    pub fn sample(&mut self, v: serde_json::Value) {
+        if self.samples.len() < 8 {
+            self.samples.push(v);
+        }
+    }
+    pub fn nontrivial<T: std::hash::Hash>(&mut self, key: &T) {
+        use std::hash::Hasher;
+        let mut h = std::collections::hash_map::DefaultHasher::new();
+        key.hash(&mut h);
+        self.distinct.insert(h.finish());
+    }
+    pub fn mismatch(&mut self, fp: &str, detail: serde_json::Value) {
+        self.mismatches += 1;
+        if self.mismatches <= 200 {
+            let mut o = serde_json::Map::new();
+            o.insert("fp".into(), fp.into());
+            o.insert("detail".into(), detail);
+            println!("MISMATCH {}", serde_json::Value::Object(o));
+        }
+    }
+    pub fn drift(&mut self, detail: serde_json::Value) {
+        self.drift += 1;
+        if self.drift <= 50 {
+            println!("DRIFT {}", detail);
+        }
+    }
+    pub fn finish(&self) {
+        let o = serde_json::json!({
+            "evaluations": self.evaluations, "mismatches": self.mismatches, "drift": self.drift,
+            "classes": self.classes, "samples": self.samples, "distinct_nontrivial": self.distinct.len(),
+        });
+        println!("SUMMARY {}", o);
+    }
+}
+
+pub fn seed() -> u64 {
+    std::env::var("VERIF_SEED").ok().and_then(|s| s.parse().ok()).unwrap_or(1)
+}
+pub fn thorough() -> bool {
+    std::env::var("VERIF_TIER").map(|t| t == "thorough").unwrap_or(false)
+}
